@@ -1,7 +1,7 @@
 (* C03: id re-use schedules of the relay model are bookkeeping-equivalent to fresh-id schedules. *)
 From Coq Require Import ZArith List Bool Lia.
 From Verif Require Import Base.Wrap Gen.GenConsts Gen.GenFrame Model.RelayItems
-  Proofs.RelayAssocP Proofs.RelayCoreP Proofs.RelayInv9P Proofs.RelayTimerP Proofs.RelayAdmitP.
+  Proofs.RelayAssocP Proofs.RelayCoreP Proofs.RelayInv9P Proofs.RelayTimerP Proofs.RelaySilentP Proofs.RelayAdmitP.
 Import ListNotations.
 Local Open Scope Z_scope.
 
@@ -29,7 +29,7 @@ Ltac dmi :=
       end
   end.
 
-Ltac unf := unfold get_conn, put_conn, log_cb, items_get, items_delete, items_entomb, timer_stop, timer_release,
+Ltac unf := unfold get_conn, put_conn, log_cb, items_get, items_delete_tomb, items_delete, items_entomb, timer_stop, timer_release,
   timer_new, tomb_count, set_conns, set_items, set_timers, set_next_tm, set_next_call, set_gcs, set_cblog, set_sent, set_panic in *; cbn in *.
 
 Lemma exec_sim : forall cf a b i room, coreq a b ->
@@ -56,7 +56,8 @@ Definition plain_label (l : label) : bool :=
 
 Lemma step_plain_sim : forall cf a b l a', coreq a b -> plain_label l = true -> step cf a l = Some a' ->
   exists b', step cf b l = Some b' /\ coreq a' b' /\
-    threads a' = threads a /\ threads b' = threads b /\ seen a' = seen a /\ seen b' = seen b.
+    threads a' = threads a /\ threads b' = threads b /\ seen a' = seen a /\ seen b' = seen b /\
+    cblog a' = cblog a /\ cblog b' = cblog b.
 Proof.
   intros cf a b l a' H Hp Hs. destruct a, b. unfold coreq in H. cbn in H.
   destruct H as (H1&H2&H3&H4&H5&H6&H7). subst.
@@ -220,9 +221,30 @@ Proof.
   - specialize (IH k id H). lia.
 Qed.
 
+(* the callback logs: the same calls and callbacks in the same order; only the reason of the
+   refusal of a re-using call req differs (duplicate id here, no destination in the shadow) *)
+Definition cb_rel (p0 p : Z * cb) : Prop :=
+  fst p0 = fst p /\ (snd p0 = snd p \/ (snd p0 = CbFailed reason_bad_host /\ snd p = CbFailed reason_duplicate)).
+Definition cbrel (l0 l : list (Z * cb)) : Prop := Forall2 cb_rel l0 l.
+
+Lemma cbrel_refl : forall l, cbrel l l.
+Proof. induction l; constructor; [split; [reflexivity|left; reflexivity]|assumption]. Qed.
+
+Lemma exec_cblog_eq : forall cf st i room,
+  cblog (fst (exec cf st i room)) = match i with ICb c x => (c, x) :: cblog st | _ => cblog st end.
+Proof. intros cf st i room. destruct (exec cf st i room) as [st1 pushed] eqn:E. apply (exec_cblog _ _ _ _ _ _ E). Qed.
+
+Lemma exec_cbrel_same : forall cf a b i room, cbrel (cblog a) (cblog b) ->
+  cbrel (cblog (fst (exec cf a i room))) (cblog (fst (exec cf b i room))).
+Proof.
+  intros cf a b i room H. rewrite !exec_cblog_eq. destruct i; try exact H.
+  constructor; [split; [reflexivity|left; reflexivity]|exact H].
+Qed.
+
 Definition sim (M : Z) (st0 st : state) : Prop :=
   coreq st0 st /\ trel (seen st) (threads st0) (threads st) /\
-  (forall k id, In (k, id) (seen st0) -> In (k, id) (seen st) \/ M <= id).
+  (forall k id, In (k, id) (seen st0) -> In (k, id) (seen st) \/ M <= id) /\
+  cbrel (cblog st0) (cblog st).
 
 Lemma existsb_seen_false : forall sn k id, ~ In (k, id) sn ->
   existsb (fun p => (fst p =? k) && (snd p =? id)) sn = false.
@@ -266,9 +288,10 @@ Qed.
 
 Lemma sim_after : forall M st0 st s0 s t c0 c, sim M st0 st -> coreq s0 s ->
   threads s0 = threads st0 -> threads s = threads st -> seen s0 = seen st0 -> seen s = seen st ->
+  cbrel (cblog s0) (cblog s) ->
   code_rel (seen st) c0 c -> sim M (set_thread s0 t c0) (set_thread s t c).
 Proof.
-  intros M st0 st s0 s t c0 c (Hc&Ht&Hs) Hcs Ht0 Ht1 Hs0 Hs1 Hcr. split; [|split].
+  intros M st0 st s0 s t c0 c (Hc&Ht&Hs&_) Hcs Ht0 Ht1 Hs0 Hs1 Hcb Hcr. split; [|split; [|split]]; [| | |exact Hcb].
   - apply coreq_set_thread. exact Hcs.
   - replace (seen (set_thread s t c)) with (seen st) by (symmetry; exact Hs1).
     apply trel_set_thread; [rewrite Ht0, Ht1; exact Ht|exact Hcr].
@@ -279,11 +302,12 @@ Qed.
 Lemma lstep_finish : forall cf M st0 st t room i0 rest0 i rest,
   sim M st0 st -> panicked st0 = 0 -> lookup tid_eqb t (threads st0) = Some (i0 :: rest0) ->
   coreq (fst (exec cf st0 i0 room)) (fst (exec cf st i room)) ->
+  cbrel (cblog (fst (exec cf st0 i0 room))) (cblog (fst (exec cf st i room))) ->
   code_rel (seen st) (snd (exec cf st0 i0 room) ++ rest0) (snd (exec cf st i room) ++ rest) ->
   exists ls1 st0', run_fresh cf st0 ls1 = Some st0' /\
     sim M st0' (set_thread (fst (exec cf st i room)) t (snd (exec cf st i room) ++ rest)).
 Proof.
-  intros cf M st0 st t room i0 rest0 i rest Hsim Hp El Hc Hcr.
+  intros cf M st0 st t room i0 rest0 i rest Hsim Hp El Hc Hcb Hcr.
   exists [LStep t room]. exists (set_thread (fst (exec cf st0 i0 room)) t (snd (exec cf st0 i0 room) ++ rest0)).
   split; [apply shadow_lstep; assumption|].
   destruct (exec_frame cf st0 i0 room) as [F1 F2]. destruct (exec_frame cf st i room) as [F3 F4].
@@ -345,7 +369,7 @@ Lemma lstep_sim : forall cf M st0 st t room st', sim M st0 st -> Inv st0 -> TInv
   exists ls1 st0', run_fresh cf st0 ls1 = Some st0' /\ sim M st0' st'.
 Proof.
   intros cf M st0 st t room st' Hsim HI HT Hg Hstep.
-  pose proof Hsim as (Hc&Ht&Hs).
+  pose proof Hsim as (Hc&Ht&Hs&Hlog).
   assert (Hp0 : panicked st0 = 0) by apply (t_nopanic _ HT).
   unfold step in Hstep. destruct (negb (panicked st =? 0)); [discriminate|].
   destruct (lookup tid_eqb t (threads st)) as [[|i rest]|] eqn:El; try discriminate.
@@ -359,19 +383,21 @@ Proof.
     inversion Hi as [i1 E0 E1|k id id' c E0 E1|k f e N Hr E0 E1|k f e c N Hr E0 E1|k f e c N Hr E0 E1]; subst.
     + (* the same instruction *)
       destruct (exec_sim cf st0 st i room Hc) as [Hce Hsn].
-      eapply lstep_finish; try eassumption. rewrite Hsn. apply cr_all. apply F2_app; [apply Forall2_irel_refl|exact Hrest].
+      eapply lstep_finish; try eassumption; [apply exec_cbrel_same; exact Hlog|].
+      rewrite Hsn. apply cr_all. apply F2_app; [apply Forall2_irel_refl|exact Hrest].
     + (* error frames that differ in the id only *)
       destruct (senderr_coreq cf st0 st k id id' c room Hc) as (Hce&Hs0&Hs1).
-      eapply lstep_finish; try eassumption. rewrite Hs0, Hs1. cbn [app]. apply cr_all. exact Hrest.
+      eapply lstep_finish; try eassumption; [rewrite !exec_cblog_eq; exact Hlog|].
+      rewrite Hs0, Hs1. cbn [app]. apply cr_all. exact Hrest.
     + (* IStart of a re-using call req *)
       destruct (start_shadow (seen st) cf st0 k f e N room Hr) as [Hf Hp].
       destruct (exec_sim cf st0 st (IStart k f e) room Hc) as [Hce Hsn].
-      eapply lstep_finish; try eassumption; [rewrite Hf; exact Hce|].
+      eapply lstep_finish; try eassumption; [rewrite Hf; exact Hce|rewrite !exec_cblog_eq; exact Hlog|].
       apply cr_all. apply F2_app; [rewrite <- Hsn; exact Hp|exact Hrest].
     + (* ICanHandle *)
       destruct (can_shadow (seen st) cf st0 k f e c N room Hr) as [Hf Hp].
       destruct (exec_sim cf st0 st (ICanHandle k f e c) room Hc) as [Hce Hsn].
-      eapply lstep_finish; try eassumption; [rewrite Hf; exact Hce|].
+      eapply lstep_finish; try eassumption; [rewrite Hf; exact Hce|rewrite !exec_cblog_eq; exact Hlog|].
       apply cr_all. apply F2_app; [rewrite <- Hsn; exact Hp|exact Hrest].
     + (* IGetDest: the re-used id finds an item (guard); the shadow's fresh id finds none *)
       cbn [reuse_guard] in Hg. rewrite El, Hr in Hg. cbn [negb orb] in Hg.
@@ -400,7 +426,8 @@ Proof.
     exists ([LStep t room] ++ [LStep t false]). eexists. split.
     + rewrite run_fresh_app, R1. exact R2.
     + apply (sim_after M st0 st); try assumption; try reflexivity.
-      apply cr_all. constructor; [apply ir_eq|]. constructor; [apply ir_eq|]. exact HF.
+      * cbn [log_cb set_cblog cblog]. constructor; [split; [reflexivity|right; split; reflexivity]|exact Hlog].
+      * apply cr_all. constructor; [apply ir_eq|]. constructor; [apply ir_eq|]. exact HF.
 Qed.
 
 Lemma in_existsb_seen : forall sn k id, In (k, id) sn -> existsb (fun p => (fst p =? k) && (snd p =? id)) sn = true.
@@ -413,7 +440,7 @@ Lemma larrive_sim : forall cf M st0 st k f e st', sim M st0 st -> Inv st0 -> TIn
   exists ls1 st0', run_fresh cf st0 ls1 = Some st0' /\ sim M st0' st'.
 Proof.
   intros cf M st0 st k f e st' Hsim HI HT Hlt Hstep.
-  pose proof Hsim as (Hc&Ht&Hs).
+  pose proof Hsim as (Hc&Ht&Hs&Hlog).
   assert (Hp0 : panicked st0 = 0) by apply (t_nopanic _ HT).
   unfold step in Hstep. destruct (negb (panicked st =? 0)); [discriminate|].
   destruct (lookup tid_eqb (TR k) (threads st)) eqn:El; [discriminate|].
@@ -433,7 +460,7 @@ Proof.
       split.
       * cbn [run_fresh fresh_label with_id f_mt f_id]. rewrite Emt, (existsb_seen_false _ _ _ HN). cbn [andb negb].
         unfold step. rewrite Hp0, El0. cbn [Z.eqb negb with_id f_mt f_id]. rewrite Er, Emt. reflexivity.
-      * split; [|split].
+      * split; [|split; [|split]]; [| | |exact Hlog].
         -- apply coreq_set_thread. unfold coreq, set_seen. cbn. exact Hc.
         -- replace (seen (set_thread (set_seen st ((k, f_id f) :: seen st)) (TR k) [IStart k f e])) with ((k, f_id f) :: seen st) by reflexivity.
            apply trel_set_thread.
@@ -452,7 +479,7 @@ Proof.
       split.
       * cbn [run_fresh fresh_label]. rewrite Emt, (existsb_seen_false _ _ _ Hnot0). cbn [andb negb].
         unfold step. rewrite Hp0, El0. cbn [Z.eqb negb]. rewrite Er, Emt. reflexivity.
-      * split; [|split].
+      * split; [|split; [|split]]; [| | |exact Hlog].
         -- apply coreq_set_thread. unfold coreq, set_seen. cbn. exact Hc.
         -- replace (seen (set_thread (set_seen st ((k, f_id f) :: seen st)) (TR k) [IStart k f e])) with ((k, f_id f) :: seen st) by reflexivity.
            apply trel_set_thread.
@@ -476,7 +503,7 @@ Lemma lfire_sim : forall cf M st0 st tm st', sim M st0 st -> TInv st0 ->
   exists ls1 st0', run_fresh cf st0 ls1 = Some st0' /\ sim M st0' st'.
 Proof.
   intros cf M st0 st tm st' Hsim HT Hstep.
-  pose proof Hsim as (Hc&Ht&Hs).
+  pose proof Hsim as (Hc&Ht&Hs&Hlog).
   assert (Hp0 : panicked st0 = 0) by apply (t_nopanic _ HT).
   pose proof Hc as (C1&C2&C3&C4&C5&C6&C7).
   unfold step in Hstep. destruct (negb (panicked st =? 0)); [discriminate|].
@@ -496,16 +523,17 @@ Lemma lplain_sim : forall cf M st0 st l st', sim M st0 st -> plain_label l = tru
   step cf st l = Some st' ->
   exists ls1 st0', run_fresh cf st0 ls1 = Some st0' /\ sim M st0' st'.
 Proof.
-  intros cf M st0 st l st' (Hc&Ht&Hs) Hp Hstep.
+  intros cf M st0 st l st' (Hc&Ht&Hs&Hlog) Hp Hstep.
   assert (Hc' : coreq st st0) by (unfold coreq in *; destruct Hc as (C1&C2&C3&C4&C5&C6&C7); repeat split; symmetry; assumption).
-  destruct (step_plain_sim cf st st0 l st' Hc' Hp Hstep) as (st0'&Hs0&Hce&T1&T2&S1&S2).
+  destruct (step_plain_sim cf st st0 l st' Hc' Hp Hstep) as (st0'&Hs0&Hce&T1&T2&S1&S2&L1&L2).
   exists [l], st0'. split.
   - cbn [run_fresh]. replace (fresh_label st0 l) with true by (destruct l; try discriminate; reflexivity).
     rewrite Hs0. reflexivity.
-  - split; [|split].
+  - split; [|split; [|split]].
     + unfold coreq in *. destruct Hce as (C1&C2&C3&C4&C5&C6&C7). repeat split; symmetry; assumption.
     + rewrite S1, T1, T2. exact Ht.
     + rewrite S1, S2. exact Hs.
+    + rewrite L1, L2. exact Hlog.
 Qed.
 
 Lemma step_sim : forall cf M st0 st l st', sim M st0 st -> Inv st0 -> TInv st0 ->
@@ -552,7 +580,7 @@ Proof.
 Qed.
 
 Lemma sim_init : forall M, sim M init init.
-Proof. intro M. split; [apply coreq_refl|split]; [constructor|intros k id []]. Qed.
+Proof. intro M. split; [apply coreq_refl|split; [|split]]; [constructor|intros k id []|constructor]. Qed.
 
 (* MAIN: every schedule in which re-used ids meet an item -- any number of connections, calls,
    re-uses, timeouts, failures, closes, in any interleaving -- has the tables, timers, pending
@@ -564,8 +592,21 @@ Theorem reuse_simulated : forall cf ls st, run_reuse cf init ls = Some st ->
 Proof.
   intros cf ls st H.
   destruct (run_sim cf (sup_ids ls) ls init init st (sim_init _) Inv_init TInv_init (sup_ids_ok ls _ (Z.le_refl _)) H)
-    as (ls0&st0&R&(Hc&_&_)).
+    as (ls0&st0&R&(Hc&_&_&_)).
   exists ls0, st0. split; [exact R|]. destruct Hc as (C1&C2&C3&C4&C5&C6&C7). repeat split; symmetry; assumption.
+Qed.
+
+(* the same with the goroutines and the callback log: the fresh-id schedule has the same
+   goroutines with pointwise related code and the same callbacks for the same calls in the same
+   order (the refusal of a re-using call req is Failed(duplicate) here, Failed(bad host) there) *)
+Theorem reuse_simulated_full : forall cf ls st, run_reuse cf init ls = Some st ->
+  exists ls0 st0, run_fresh cf init ls0 = Some st0 /\ coreq st0 st /\
+    trel (seen st) (threads st0) (threads st) /\ cbrel (cblog st0) (cblog st).
+Proof.
+  intros cf ls st H.
+  destruct (run_sim cf (sup_ids ls) ls init init st (sim_init _) Inv_init TInv_init (sup_ids_ok ls _ (Z.le_refl _)) H)
+    as (ls0&st0&R&(Hc&Ht&_&Hl)).
+  exists ls0, st0. split; [exact R|split; [exact Hc|split; [exact Ht|exact Hl]]].
 Qed.
 
 Theorem reuse_no_panic : forall cf ls st, run_reuse cf init ls = Some st -> panicked st = 0.
